@@ -1337,6 +1337,13 @@ class Interp:
             if meth in ("sum", "min", "max", "mean", "cumsum", "prod", "any", "all") and not isinstance(recv, TupV):
                 extra = [nf.fn("kw:" + k, self.to_nf(v)) for k, v in sorted(kwargs.items())]
                 return Num(nf.fn(meth, self.to_nf(recv), *[self.to_nf(a) for a in args], *extra))
+        if isinstance(recv, TupV) and recv.is_list:
+            if meth == "append" and len(args) == 1:
+                recv.items.append(args[0])
+                return NoneV()
+            if meth == "extend" and len(args) == 1 and isinstance(args[0], TupV):
+                recv.items.extend(args[0].items)
+                return NoneV()
         if isinstance(recv, DictV):
             if meth == "update" and len(args) == 1:
                 if isinstance(args[0], DictV):
